@@ -32,6 +32,12 @@ TEMPLATES = [
     (("a", "b", "i", "j"), ("a", "i", "k"), ("b", "i")),
     (("a", "i", "j"), ("a", "b", "i", "k"), ("b", "c"), ("c",)),
     (("a", "c", "i", "j"), ("a", "b", "i", "k"), ("b", "c"), ("c", "i")),
+    # crossing (non-nested) plates with no factor at the shared level
+    (("a", "i"), ("a", "j", "k")),
+    (("a", "i"), ("a", "j")),
+    (("a", "i"), ("b", "j"), ("a", "i", "j"), ("b", "i", "j")),
+    (("a", "i"), ("b", "j"), ("a", "b", "i", "j"), ("b", "i", "j")),
+    (("a", "i", "k"), ("a", "j"), ("b", "j", "k"), ("b",)),
 ]
 
 
